@@ -122,6 +122,41 @@ impl SettingsSpec {
         s
     }
 
+    pub fn from_json(v: &Value) -> Option<SettingsSpec> {
+        let strs = |x: &Value| -> Vec<String> {
+            x.as_array()
+                .map(|a| a.iter().filter_map(|s| s.as_str().map(|s| s.to_string())).collect())
+                .unwrap_or_default()
+        };
+        let opt = |x: &Value| x.as_str().map(|s| s.to_string());
+        Some(SettingsSpec {
+            root: v["root"].as_str()?.to_string(),
+            alloc: opt(&v["alloc"]),
+            docs: v["docs"].as_bool()?,
+            codec: v["codec"].as_bool()?,
+            compact_path: opt(&v["compact_path"]),
+            bits_path: opt(&v["bits_path"]),
+            compact_as: opt(&v["compact_as"]),
+            global_derives: strs(&v["global_derives"]),
+            global_attrs: strs(&v["global_attrs"]),
+            specific: v["specific"]
+                .as_array()?
+                .iter()
+                .map(|r| PathReg {
+                    path: r["path"].as_str().unwrap_or("").to_string(),
+                    derives: strs(&r["derives"]),
+                    attrs: strs(&r["attrs"]),
+                    recursive: r["recursive"].as_bool().unwrap_or(false),
+                })
+                .collect(),
+            substitutes: v["substitutes"]
+                .as_array()?
+                .iter()
+                .filter_map(|p| Some((p[0].as_str()?.to_string(), p[1].as_str()?.to_string())))
+                .collect(),
+        })
+    }
+
     pub fn to_json(&self) -> Value {
         json!({
             "root": self.root, "alloc": self.alloc, "docs": self.docs, "codec": self.codec,
